@@ -113,6 +113,11 @@ StreamNext ==
          Emit([op |-> "mean.ci", fl |-> "arith", ty |-> ty, style |-> sty, li |-> 12,
                conf |-> [kind |-> "two", level |-> [dec |-> "0.95"]], first |-> TRUE, role |-> "stream",
                data |-> [rle |-> << <<V(1, 24), 1>>, <<V(8724152, -26), n \div 2>>, <<V(-1, -3), n \div 4>>, <<V(1025, -13), n \div 4>> >>, order |-> "interleave"]])
+    \* partial states whose sum is exactly zero (+x, -x) are not empty states
+    /\ \A ty \in {"f32", "f64"} : \A sty \in {"rfold7", "lfold7", "tree"} :
+         Emit([op |-> "mean.ci", fl |-> "arith", ty |-> ty, style |-> sty, li |-> 12,
+               conf |-> [kind |-> "two", level |-> [dec |-> "0.95"]], first |-> TRUE, role |-> "stream",
+               data |-> [rle |-> << <<V(13421773, -27), 5000>>, <<V(-13421773, -27), 5000>> >>, order |-> "interleave"]])
     /\ \A ty \in {"f32", "f64"} : \A o \in {"asc", "interleave"} :
          LET n == IF ty = "f32" THEN Rep ELSE Rep64 IN
          Emit([op |-> "mean.ci", fl |-> "arith", ty |-> ty, style |-> "extend", li |-> 12,
